@@ -310,6 +310,30 @@ def stop_lost_scan(chk, repo, rid):
     ok = bool(scans) and bool(rets) and all(any(cfg.dominates(s_, r_) or s_ == r_ for s_ in scans) for r_ in rets)
     chk.ob(rid, 'the scan over self.variants is on every path to a return', f.where, ok,
            'get_stop_lost_variants can return without having looked at the variants of the node', key=f.qual + '::scan-dominates', fn=f.qual)
+    # the test applied to each variant is an interval OVERLAP with the stop codon [stop_index, stop_index + 3): `.overlaps(<that location>)`, or the
+    # two comparisons start < stop_index + 3 and stop_index < end.  Membership of single positions (`stop_index in location`) is not an
+    # overlap test: a variant lying strictly inside the codon contains neither end point of it... and vice versa.
+    from sa import sem
+    ch = sem.block_chains(f.node)
+    tests = []
+    for n in ast.walk(f.node):
+        if isinstance(n, ast.If) and any(isinstance(c, ast.Call) and call_name(c) in ('append', 'add') for s_ in n.body for c in ast.walk(s_)):
+            tests.append(unparse(sem.expand_names(f.node, n, n.test, chains=ch, allow_calls=('FeatureLocation', 'overlaps'), depth=4)))
+        if isinstance(n, (ast.ListComp, ast.GeneratorExp)) and any(unparse(g.iter) == 'self.variants' for g in n.generators):
+            st_ = repo.enclosing_stmt(n)
+            tests += [unparse(sem.expand_names(f.node, st_, c_, chains=ch, allow_calls=('FeatureLocation', 'overlaps'), depth=4)) for g in n.generators for c_ in g.ifs]
+    norm = [re.sub(r'\s', '', t) for t in tests]
+    overlap_call = any(re.search(r'\.overlaps\(FeatureLocation\((start=stop_index,end=stop_index\+3|end=stop_index\+3,start=stop_index)\)\)', t) for t in norm)
+    member = any(re.search(r'\bin\b', t) and 'location' in t and 'overlaps' not in t for t in tests)
+    if overlap_call:
+        chk.ob(rid, 'each variant is tested for overlap with the stop codon [stop_index, stop_index + 3)', f.where, True, '', key=f.qual + '::overlap-test', fn=f.qual)
+    elif member:
+        chk.ob(rid, 'each variant is tested for overlap with the stop codon [stop_index, stop_index + 3)', f.where, False,
+               f"the per-variant test is {tests}: membership of single positions in the variant location is not an overlap test (a variant strictly inside the stop codon "
+               'contains neither of its end points and is not reported as stop-lost)', key=f.qual + '::overlap-test', fn=f.qual)
+    else:
+        chk.undecided(rid, 'stop-codon overlap test', f.where, f"the per-variant test {tests} is neither `.overlaps(FeatureLocation(start=stop_index, end=stop_index + 3))` nor a membership test",
+                      key=f.qual + '::overlap-test', fn=f.qual)
 
 
 def stage_comparator_per_node(chk, repo, rid):
